@@ -552,6 +552,22 @@ func parseHeader(s string) (key string, params, results []string, err error) {
 		}
 		s = strings.TrimSpace(s[:i])
 	}
+	if strings.HasPrefix(s, "\"") {
+		// quoted key form (instantiated generics): "key"(param, ...) -> results
+		j := strings.Index(s[1:], "\"")
+		if j < 0 {
+			return "", nil, nil, fmt.Errorf("header %q: unterminated key", s)
+		}
+		key = s[1 : 1+j]
+		rest := strings.TrimSpace(s[2+j:])
+		rest = strings.TrimSuffix(strings.TrimPrefix(rest, "("), ")")
+		for _, p := range strings.Split(rest, ",") {
+			if p = strings.TrimSpace(p); p != "" {
+				params = append(params, p)
+			}
+		}
+		return key, params, results, nil
+	}
 	if !strings.Contains(s, " ") && !strings.HasSuffix(s, ")") {
 		return s, nil, results, nil // key form
 	}
